@@ -94,26 +94,6 @@ def generate():
                 flat.append(ast.unparse(st))
         body += "/-- Handler.emit under the handler lock -/\n"
         body += "def emitCritical : List String := [%s]\n\n" % ", ".join(lean_str(x) for x in flat)
-        # C15: everything the worker thread outputs (sink write, error report on sys.stderr) happens under `lock`
-        # (= self._queue_lock, which acquire_locks() takes before a fork)
-        aliases = [ast.unparse(n.targets[0]) for n in qw.body if isinstance(n, ast.Assign) and len(n.targets) == 1
-                   and ast.unparse(n.value) == "self._queue_lock"]
-        lock_names = set(aliases) | {"self._queue_lock"}
-
-        def outputs(node):
-            return [c for c in ast.walk(node) if isinstance(c, ast.Call) and ast.unparse(c.func) in
-                    ("self._sink.write", "self._error_interceptor.print")]
-
-        all_out = outputs(qw)
-        locked = []
-        for w in ast.walk(qw):
-            if isinstance(w, ast.With) and len(w.items) == 1 and ast.unparse(w.items[0].context_expr) in lock_names:
-                locked.extend(outputs(w))
-        if not any(ast.unparse(c.func) == "self._sink.write" for c in all_out):
-            raise Unsupported("_queued_writer does not call self._sink.write")
-        body += "/-- every sink write and every error report of the worker thread is lexically inside `with <queue lock>` -/\n"
-        body += "def workerOutputUnderLock : Bool := %s\n\n" % (
-            "true" if all(any(c is l for l in locked) for c in all_out) else "false")
         # C03 no loss at interpreter exit: loguru/__init__.py registers logger.remove with atexit at module level,
         # outside every condition (whether or not the default handler was installed)
         itree, _ = parse_module("__init__.py")
@@ -173,7 +153,7 @@ def generate():
         body += "/-- `__reduce__` drops an exception TYPE that cannot be pickled (fix F28) -/\n"
         body += "def reduceGuardsType : Bool := %s\n" % ("true" if guard("__reduce__", "pickle.dumps(self.type)") else "false")
         body += "/-- `_from_pickled_value` falls back likewise for every Exception raised by unpickling -/\n"
-        body += "def loadGuardsAll : Bool := %s\n" % ("true" if guard("_from_pickled_value", "pickle.loads(pickled_value)") else "false")
+        body += "def loadGuardsAll : Bool := %s\n" % ("true" if guard("_from_pickled_value", "pickle.loads(") else "false")
     except (Unsupported, SyntaxError, KeyError, AttributeError, IndexError) as e:
         errors.append("%s: %s" % (type(e).__name__, e))
     body += "\nend Queue.ShapeGen\n"
